@@ -57,4 +57,14 @@ TEXT.update({
         note="Trusted: Lean kernel + 3 standard axioms; reflect.Select modelled as nondeterministic choice; eligibility by element type modelled on 4 element classes; tie = this run's differential.",
         technique="Lean 4 proof (list-index refinement to an erase-by-position abstraction, Perm accounting) + forced-schedule differential execution"),
 })
+TEXT.update({
+    "C16": dict(
+        text="Lean theorems over transition systems that interleave cancellations with the asynchronous AfterFunc callbacks in every order, for every number "
+             "of inputs: the chained function is never called twice and, once callbacks have run, exactly once iff either context was cancelled; the combined "
+             "context is cancelled only with a cause, immediately with the primary, and at quiescence iff the primary or any other is cancelled, after which no "
+             "hook stays registered; the conflated context is cancelled only by its cancel function or when all inputs are cancelled, and at quiescence is "
+             "cancelled when they all are, with the waiter's WaitGroup at zero. Tied by differential execution over cancellation orders incl. simultaneous ones.",
+        note="Trusted: Lean kernel + 3 standard axioms; the context package's AfterFunc/stop/WithoutCancel semantics and callback scheduling are modelled; tie = this run's differential.",
+        technique="Lean 4 proof (inductive invariants over all interleavings of cancellations and callbacks) + differential execution after quiescence"),
+})
 NOT_YET = {}
